@@ -7,7 +7,6 @@ from ast import Call, Expr, Load, Name, Subscript, Tuple, expr, keyword
 from operator import attrgetter
 from typing import Optional, cast
 
-import cdd.compound.openapi.utils.emit_utils
 import cdd.shared.ast_utils
 import cdd.shared.source_transformer
 import cdd.sqlalchemy.utils.emit_utils
